@@ -348,7 +348,7 @@ def gen_nested(rng):
 
     def body_stmts(vis):
         out = []
-        lhs = [s for s in vis if not s.is_constant]
+        lhs = [s for s in vis if not s.is_constant and s is not ivar] or [s for s in vis if not s.is_constant]
         for _ in range(rng.randint(1, 2)):
             tgt = rng.choice(lhs)
             src = rng.choice(vis)
@@ -358,7 +358,7 @@ def gen_nested(rng):
 
     def make_scope(depth, vis):
         """A Loop (or IfBlock) whose body schedule owns new symbols."""
-        if rng.random() < 0.7:
+        if depth == 1 and rng.random() < 0.7:      # nested scopes below a loop are IF bodies (one loop variable)
             node = Loop.create(ivar, Literal("1", INTEGER_TYPE), Literal("10", INTEGER_TYPE),
                                Literal("1", INTEGER_TYPE), [])
             sched = node.loop_body
